@@ -40,6 +40,8 @@ def pivot():
                       derives=d, std_derives=std, note="one case-insensitive variant next to case-sensitive variants whose spellings are all-lowercase / all-uppercase"))
     S.append(EnumSpec("ShortTs", [U("Xl", to_string="xl", serialize=["extra-large"]), U("S", to_string="s"), U("Medium", serialize=["m", "medium"])],
                       derives=d, std_derives=std, note="a short to_string next to a much longer serialize alias (the preferred name is NOT the longest spelling)"))
+    S.append(EnumSpec("DefCs", [U("Aa"), U("Other", fields=[Field("String")], default=True), U("Bb", serialize=["bb", "b"])], derives=d, std_derives=std,
+                      note="default variant with ONLY case-sensitive siblings (no guard arms at all)"))
     S.append(EnumSpec("OnlyCi", [U("K", serialize=["k"], aci=True), U("S1", serialize=["s1"], aci=True)], derives=d, std_derives=std,
                       note="single-letter lowercase case-insensitive spellings (Kelvin sign / long s look-alikes in range)"))
     return S
